@@ -198,7 +198,7 @@ def evaluate(job):
                 res.setdefault('harness', []).append(c)
         return res
     except Exception as e:
-        res['outcome'] = f'sweep-error:{e!r}'
+        res['outcome'] = f'sweep-error:{e!r}'[:200]
         return res
     finally:
         shutil.rmtree(d, ignore_errors=True)
